@@ -243,7 +243,7 @@ def main():
         if g.status == "unsat":
             by_solver[g.solver] = by_solver.get(g.solver, 0) + 1
     meta = getattr(props_mod, "META", {}) if props_mod else {}
-    assumptions = sorted(set(E.notes)) + ["axiom: " + nm for nm, _ in REG.axioms] + list(meta.get("assumptions", []))
+    assumptions = sorted(set(E.notes)) + ["axiom: " + ax[0] for ax in REG.axioms] + list(meta.get("assumptions", []))
     assumptions.append("T-enc: the encoder's model of Python (DESIGN 2.2/2.6); termination not proved")
     level = meta.get("level", "other")
     if out_of_reach and level == "proof":
